@@ -431,6 +431,20 @@ def findable_keys(lay, data):
     return found
 
 
+def packing_holds(lay, data, j):
+    """kastore's own rule for item j, evaluated on the altered descriptor bytes in `data`."""
+    o = HDR + j * DESC
+    typ = data[o]
+    (as_, al) = struct.unpack_from("<QQ", data, o + 24)
+    if typ >= len(TYPE_SIZE):
+        return False
+    end = as_ + al * TYPE_SIZE[typ]
+    nxt = lay["items"][j + 1]["array_start"] if j + 1 < lay["nitems"] else lay["size"]
+    if j + 1 < lay["nitems"]:
+        end = (end + 7) // 8 * 8
+    return end == nxt
+
+
 def classify_structural(tskit, lay, off, orig_img, new_img, label, loader="tc", data=None):
     """Returns (key_or_None, description) for a structural alteration that LOADED."""
     reg = region_of(lay, off)
@@ -440,9 +454,14 @@ def classify_structural(tskit, lay, off, orig_img, new_img, label, loader="tc", 
         if reg == "descriptor" and ((off - HDR) % DESC) in IGNORED_DESC:
             return "kastore.unvalidated_reserved_bytes", f"descriptor byte {(off - HDR) % DESC} ignored"
         if reg == "descriptor" and desc_field((off - HDR) % DESC) in ("type", "array_len"):
-            # e.g. a one-element uint32 offset column re-typed uint64: the extra bytes are padding zeros
-            return ("kastore.free_length_item_resized",
-                    "descriptor type/array_len altered within the alignment padding: same object loaded")
+            # e.g. a one-element uint32 offset column re-typed uint64: the extra bytes are padding zeros.
+            # Known only when the altered (type, array_len) still satisfies kastore's packing rule
+            # next_start == align8(start + array_len * size); anything else must have been rejected.
+            if data is None or packing_holds(lay, data, (off - HDR) // DESC):
+                return ("kastore.free_length_item_resized",
+                        "descriptor type/array_len altered within the alignment padding: same object loaded")
+            return None, (f"alteration of {label} at offset {off} breaks the array packing rule, yet the file loaded "
+                          "(as the same object)")
         if reg == "key":
             it = next(i for i in lay["items"] if i["key_start"] <= off < i["key_start"] + i["key_len"])
             if data is not None and not loader.endswith("skip_tables"):
@@ -626,6 +645,80 @@ def run_data(case, ctx):
         os.unlink(path)
 
 
+# ------------------------------------------------------------------ data faults far down long columns
+def long_spec(R):
+    """R leaves under one root; R sites with one mutation each; R individuals; almost every ragged cell empty (long
+    runs of equal offsets), a few non-empty ones at the ends and in the middle."""
+    def md(j):
+        return "xy" if j in (0, R // 2, R - 1) else ""
+
+    nodes = [[1, 0.0, 0, j, md(j)] for j in range(R)] + [[0, 1.0, 0, -1, ""]]
+    edges = [[0.0, float(R), R, j, md(j)] for j in range(R)]
+    sites = [[float(j), "A" if j % 1500 == 0 else "", md(j)] for j in range(R)]
+    muts = [[j, j, "T" if j % 1500 == 0 else "", -1, None, md(j)] for j in range(R)]
+    inds = [[0, [1.0] if j == R // 2 else [], [j - 1] if j == R - 1 else [], md(j)] for j in range(R)]
+    migs = [[0.0, float(R), j, 0, 0, 0.5, md(j)] for j in range(0, R, 2)]
+    return dict(L=float(R), nodes=nodes, edges=edges, sites=sites, mutations=muts, individuals=inds,
+                populations=[[""]], migrations=migs)
+
+
+def enum_data_large(tier, seed):
+    for R in ([3000] if tier == "quick" else [1030, 3000, 70000]):
+        for loader in ("tc", "ts", "tc_skip_ref"):
+            yield dict(R=R, loader=loader)
+
+
+def run_data_large(case, ctx):
+    """Every *_offset column and every id / coordinate column of a file with thousands of rows: element-wise
+    substitutions at positions beyond 1024 / 2048 / 65536 and inside long runs of equal offsets."""
+    import tskit
+
+    acc = _accept_exc(tskit)
+    R = case["R"]
+    t, buf = make_file(tskit, long_spec(R), dict(index=True))
+    lay = parse_layout(buf)
+    loader = case["loader"]
+    path = os.path.join(os.environ.get("VF_SCRATCH", "."), "c10.datal")
+    ctx.nt(True)
+    ctx.label("loader:" + loader)
+    items = [it for it in lay["items"] if it["array_len"] > 8 and not is_text_payload(it["key"])
+             and any(h in it["key"] for h in HOT)]
+    loaded = rejected = 0
+    for it in items:
+        esz = TYPE_SIZE[it["type"]]
+        n = it["array_len"]
+        pos = sorted({1, 2, 511, 1023, 1024, 1025, 1500, 2047, 2048, 2049, n // 2, n - 2, n - 1, 65536, 65537} & set(range(n)))
+        hows = ("inc", "big", "dec") if it["key"].endswith("_offset") else ("big",)
+        if not it["key"].endswith("_offset"):
+            pos = pos[::3]
+        for j in pos:
+            for how in hows:
+                off = it["array_start"] + j * esz
+                cur = buf[off:off + esz]
+                if how == "big":
+                    new = b"\xff" * (esz - 1) + b"\x7f"
+                else:
+                    iv = (int.from_bytes(cur, "little") + (1 if how == "inc" else -1)) % (1 << (8 * esz))
+                    new = iv.to_bytes(esz, "little")
+                if new == cur:
+                    continue
+                write(path, buf[:off] + new + buf[off + esz:])
+                try:
+                    obj = load_with(tskit, path, loader)
+                except acc:
+                    rejected += 1
+                    continue
+                loaded += 1
+                what = f"data_large:{it['key']}[{j}] {how}"
+                well_formed(ctx, tskit, as_tables(obj), what + ".well_formed")
+                if loader.startswith("ts"):
+                    check_loaded_ts(ctx, tskit, obj, what + ".valid_ts")
+    ctx.notes["data_rejected"] = rejected
+    ctx.notes["data_loaded"] = loaded
+    if os.path.exists(path):
+        os.unlink(path)
+
+
 # ------------------------------------------------------------------ raw (non tree sequence) collections through TableCollection.load
 @st.composite
 def raw_case(draw):
@@ -786,5 +879,8 @@ SUBCHECKS = [
     SubCheck("C10.libfuzzer", run_fuzz, enumerate=enum_fuzz, quick=1, thorough=1, shards=8, hang_s=4 * 3600,
              rule="libFuzzer (clang, ASan+UBSan) campaigns over tsk_table_collection_loadf with the round-trip / tree-sweep "
                   "oracle inside the target; 8 x 15000 executions quick, 16 x 3000000 thorough; seeded and empty corpora"),
+    SubCheck("C10.data_large", run_data_large, enumerate=enum_data_large, quick=1, thorough=1, shards=3, hang_s=1800,
+             rule="a file with 3000 (thorough: up to 70000) rows per table, mostly empty ragged cells: every offset / id "
+             "/ coordinate column altered at positions around 1024, 2048, the middle and the end"),
     SubCheck("C10.probe", run_probe, enumerate=enum_probe, quick=0, thorough=0, rule="probe only"),
 ]
